@@ -59,38 +59,56 @@ def op_coq(op):
     raise ValueError('op not expressible in the model: %r' % (op,))
 
 
-def log_coq(oplog):
+def op_coq22(op):
+    k = op[0]
+    if k == 'send':
+        _, now, dp, pf, ps, prio, sa, data, tl, ff = op
+        return 'O2Send %s %s %s %s %s %s (PLit %s) %s %s' % (zz(now), zz(dp), zz(pf), zz(ps), zz(prio), zz(sa), zl(data), zz(tl), zz(ff))
+    base = op_coq(op)
+    if not base.startswith('Op') or base.split()[0] not in ('OpSubscribe', 'OpUnsubscribe', 'OpAddCa', 'OpCaSubscribe', 'OpCaSubReq', 'OpAddTimer',
+                                                           'OpRemoveTimer', 'OpNotify', 'OpListener', 'OpJob'):
+        raise ValueError('op not expressible in the FD model: %r' % (op,))
+    return 'O2' + base[2:]
+
+
+def log_coq(oplog, fd=False):
     parts = []
     for e in oplog:
-        parts.append('Cn' if e[0] == 'C' else 'B (%s)' % op_coq(e[1]))
+        if fd:
+            parts.append('C2' if e[0] == 'C' else 'B2 (%s)' % op_coq22(e[1]))
+        else:
+            parts.append('Cn' if e[0] == 'C' else 'B (%s)' % op_coq(e[1]))
     return '[' + ';\n '.join(parts) + ']'
 
 
 def init_coq(sd):
     def us(x):
         return 'None' if x is None else '(Some %d)' % int(round(x * 1e6))
-    return '(init_node %d %s %s)' % (sd.get('max_cmdt', 1), us(sd.get('cmdt_iv')), us(sd.get('bam_iv')))
+    fn = 'init_node' if sd.get('dll', 'j1939-21') == 'j1939-21' else 'init_node22'
+    return '(%s %d %s %s)' % (fn, sd.get('max_cmdt', 1), us(sd.get('cmdt_iv')), us(sd.get('bam_iv')))
 
 
-HEADER = ('From J1939 Require Import Base CodecGlue Model21 Replay21.\nOpen Scope Z_scope.\n'
+HEADER = ('From J1939 Require Import Base CodecGlue Model21 Replay21 Model22 Replay22.\nOpen Scope Z_scope.\n'
           'Set Warnings "-abstract-large-number".\n')
 
 
 def correspond(work, runs, shard=40, tag='c21'):
-    """runs: list of (sc, res). Returns (n_traces, mismatches[(k, j)], errors)"""
+    """runs: list of (sc, res). Returns (n_traces, mismatches[(k, j)], errors).  Both data link layers."""
     cases = []
     for k, (sc, res) in enumerate(runs):
         for j, sd in enumerate(sc['stacks']):
-            if sd.get('dll', 'j1939-21') != 'j1939-21':
+            if j >= len(res.oplog) or not res.oplog[j]:
                 continue
-            cases.append((k, j, init_coq(sd), res.oplog[j], D.digest(res.outs[j])))
+            fd = sd.get('dll', 'j1939-21') != 'j1939-21'
+            cases.append((k, j, init_coq(sd), res.oplog[j], D.digest(res.outs[j]), fd))
     files = []
     for s in range(0, len(cases), shard):
         chunk = cases[s:s + shard]
         body = HEADER
-        for (k, j, init, log, dg) in chunk:
-            body += 'Definition l_%d_%d : list ev := %s.\n' % (k, j, log_coq(log))
-        body += 'Eval vm_compute in [' + '; '.join('case_digest %s l_%d_%d' % (init, k, j) for (k, j, init, log, dg) in chunk) + '].\n'
+        for (k, j, init, log, dg, fd) in chunk:
+            body += 'Definition l_%d_%d : list %s := %s.\n' % (k, j, 'ev22' if fd else 'ev', log_coq(log, fd))
+        body += 'Eval vm_compute in [' + '; '.join('%s %s l_%d_%d' % ('case_digest22' if fd else 'case_digest', init, k, j)
+                                                   for (k, j, init, log, dg, fd) in chunk) + '].\n'
         files.append(('%s_%d' % (tag, s // shard), body))
     res = C.run_many_cases(work, files, timeout=600, par=12)
     mism, errors = [], []
@@ -104,7 +122,7 @@ def correspond(work, runs, shard=40, tag='c21'):
         if len(got) != 1 or len(got[0]) != len(chunk):
             errors.append((name, 'unparsable output: ' + out[-400:]))
             continue
-        for (k, j, init, log, dg), g in zip(chunk, got[0]):
+        for (k, j, init, log, dg, fd), g in zip(chunk, got[0]):
             if g != dg:
                 mism.append((k, j, g))
     return len(cases), mism, errors
@@ -112,8 +130,9 @@ def correspond(work, runs, shard=40, tag='c21'):
 
 def first_difference(work, sc, res, j, tag='diff'):
     """full model output for one (scenario, stack); returns (index, model_slice, impl_slice)"""
-    body = HEADER + 'Definition l : list ev := %s.\n' % log_coq(res.oplog[j])
-    body += 'Eval vm_compute in case_full %s l.\n' % init_coq(sc['stacks'][j])
+    fd = sc['stacks'][j].get('dll', 'j1939-21') != 'j1939-21'
+    body = HEADER + 'Definition l : list %s := %s.\n' % ('ev22' if fd else 'ev', log_coq(res.oplog[j], fd))
+    body += 'Eval vm_compute in %s %s l.\n' % ('case_full22' if fd else 'case_full', init_coq(sc['stacks'][j]))
     rc, out = C.run_cases_file(work, tag, '', body[len(C.COQ_HEADER) - len(C.COQ_HEADER):], timeout=300)
     got = C.parse_nat_list(out)
     if rc != 0 or not got:
